@@ -108,7 +108,16 @@ static void password_alphabet(struct res *r) {
         if (pw_exact(q, nf, nl, r, "c12:password-codepoint", "one-character password")) { if (r->nviol > 40) break; }
         if (cp < 0x3000 || (cp & 15) == 0) { char e[20]; snprintf(e, sizeof e, "5%sm", q); nl = u_nfkd(e, nf, sizeof nf - 1); pw_exact(e, nf, nl, r, "c12:password-codepoint", "character between two ASCII characters"); }
     }
-    res_sample(r, "all 127 one-byte and 16129 two-byte ASCII passwords, control characters included; every BMP code point");
+    /* four-byte sequences (supplementary planes): alone and next to a character that has a decomposition - the whole password is what the
+     * injected normaliser returns for it */
+    { static const unsigned RG[][2] = { { 0x10000, 0x13000 }, { 0x1D000, 0x1FB00 }, { 0x20000, 0x20100 }, { 0x2F800, 0x2FA20 }, { 0xE0000, 0xE0080 }, { 0xF0000, 0xF0002 }, { 0x10FFFD, 0x110000 } };
+      for (unsigned g = 0; g < sizeof RG / sizeof *RG; g++) for (unsigned cp = RG[g][0]; cp < RG[g][1]; cp++) {
+        char q[24]; size_t l = 0; q[l++] = (char)(0xF0 | cp >> 18); q[l++] = (char)(0x80 | (cp >> 12 & 63)); q[l++] = (char)(0x80 | (cp >> 6 & 63)); q[l++] = (char)(0x80 | (cp & 63)); q[l] = 0;
+        char nf[96]; size_t nl = u_nfkd(q, nf, sizeof nf - 1);
+        if (pw_exact(q, nf, nl, r, "c12:password-codepoint", "one-character password (four-byte sequence)")) { if (r->nviol > 40) break; }
+        if ((cp & 7) == 0) { char e[40]; snprintf(e, sizeof e, "\xC3\xA9%s\xEF\xAC\x81", q); nl = u_nfkd(e, nf, sizeof nf - 1); pw_exact(e, nf, nl, r, "c12:password-codepoint", "four-byte sequence between a precomposed letter and a ligature"); }
+      } }
+    res_sample(r, "all 127 one-byte and 16129 two-byte ASCII passwords, control characters included; every BMP code point; 25 000 code points of the supplementary planes");
 }
 /* passwords whose normal form is as long as the phrase buffer allows, one byte less, one byte more: p ASCII bytes + n accented letters,
  * both spellings; what the KDF receives is what the injected normaliser delivers (it fills at most sizeof(polyseed_str)-1 bytes) */
